@@ -323,7 +323,7 @@ func runC10(args []string) {
 		}
 		for k := 0; k <= len(src); k += step {
 			for _, chunk := range []int{1, 0} {
-				for _, ek := range []string{"generic", "timeout", "ueof"} {
+				for _, ek := range []string{"generic", "timeout", "ueof", "weof"} {
 					if !r.Thorough() && ek != "generic" && (k%5 != 0) {
 						continue
 					}
